@@ -451,6 +451,12 @@ class Gen(object):
     cols = view.all_cols(tid)
     if not cols:
       return None
+    # prefer columns that already carry helper columns (rules, display column): removing such a column
+    # later drags several helpers with it
+    loaded = [c for c in cols if getattr(view.tables[tid]["cols"][c][4], 'rules', None)
+              or getattr(view.tables[tid]["cols"][c][4], 'displayCol', 0)]
+    if loaded and r.random() < 0.6:
+      return ['AddEmptyRule', tid, 0, view.tables[tid]["cols"][r.choice(loaded)][0]]
     cref = view.tables[tid]["cols"][r.choice(cols)][0]
     fields = view.fields(tid)
     if fields and r.random() < 0.4:
